@@ -408,8 +408,14 @@ pub fn run(ctx: &Ctx) -> (Stats, Spec) {
         check_case(ctx, &mut st, &Case { root: 2, puzzle, io: 0, exact: true, known_solution: None }, &format!("blank-{}", b as u32));
         st.bump("blank_symbols_probed");
     }
+    // puzzle texts larger than any I/O buffer: the 16 cells spread over ~30 KiB of whitespace
+    for (k, pad) in ["\n".repeat(2_000), " \t".repeat(1_000), "\r\n\u{a0}".repeat(600)].iter().enumerate() {
+        let puzzle: String = "1.3...2.....4...".chars().map(|c| format!("{}{}", c, pad)).collect();
+        check_case(ctx, &mut st, &Case { root: 2, puzzle, io: (k % 3) as u8, exact: true, known_solution: None }, &format!("large-{}", k));
+        st.bump("large_inputs");
+    }
     let spec = Spec {
-        rule: "root 1 exhaustively; root 2: the empty puzzle (288 grids) and random hint patterns (0-16 givens taken from valid grids, contradictory patterns incl. box-only conflicts, truncated and over-long inputs, 5 layouts with spaces/newlines/tabs/CRLF, 12 blank symbols incl. the double quote and multi-byte characters (·, □, ＿, é), ASCII and Unicode whitespace); root 3: puzzles with 30-60 givens derived from generated valid grids and the repository's example (exact model sets), sparse puzzles and root 4 by structural probes (same digit twice in a unit, two digits / no digit in a cell, givens enforced, a valid grid satisfies, near-misses falsify). Exact = all models enumerated, decoded through _c_is_d and compared as a set with an independent backtracking solver. distinct = (root, normalised givens); non-trivial = at least one given and one blank.".into(),
+        rule: "root 1 exhaustively; root 2: the empty puzzle (288 grids) and random hint patterns (0-16 givens taken from valid grids, contradictory patterns incl. box-only conflicts, truncated and over-long inputs, puzzle texts spread over ~30 KiB of whitespace, 5 layouts with spaces/newlines/tabs/CRLF, 12 blank symbols incl. the double quote and multi-byte characters (·, □, ＿, é), ASCII and Unicode whitespace); root 3: puzzles with 30-60 givens derived from generated valid grids and the repository's example (exact model sets), sparse puzzles and root 4 by structural probes (same digit twice in a unit, two digits / no digit in a cell, givens enforced, a valid grid satisfies, near-misses falsify). Exact = all models enumerated, decoded through _c_is_d and compared as a set with an independent backtracking solver. distinct = (root, normalised givens); non-trivial = at least one given and one blank.".into(),
         assumptions: vec![
             "givens are digits between 1 and r^2; 0 and larger digits are outside the statement's domain and are not generated".into(),
             "rsbdd itself cannot solve even the 4x4 formula within minutes, so there is no engine cross-check here".into(),
